@@ -446,6 +446,10 @@ func (vt *Model) print(seq ansi.Print) {
 	}
 
 	w := seq.Width
+	if w > vt.width() {
+		// A glyph wider than the whole screen cannot be shown at all
+		return
+	}
 
 	// handle wrapping
 	var wrap bool
@@ -470,6 +474,11 @@ func (vt *Model) print(seq ansi.Print) {
 
 	col := vt.cursor.col
 	rw := vt.cursor.row
+	if !vt.mode.decawm && col+column(w)-1 > vt.margin.right {
+		// No room left on the line and no wrapping: a wide glyph would
+		// stick out of the screen
+		return
+	}
 
 	if vt.mode.irm {
 		line := vt.activeScreen[rw]
